@@ -118,4 +118,23 @@ def buildTiled (codec : Option Codec) (R C tr tc : Nat) (t : SegType) (segs : Li
   else if m.planeSizes.any (· != R * C) then .error .value
   else build codec tr tc t segs mfv omt (List.range (tileMask R C tr tc m).numPlanes) (tileMask R C tr tc m)
 
+/-- the same constructor path in the order of the source: `_check_and_cast_pixel_array` on the whole matrix, then the loop
+    cuts the *cast* array with `get_tile_array` (equal to `buildTiled`: `buildTiled_is_source_order`) -/
+def buildTiledSrc (codec : Option Codec) (R C tr tc : Nat) (t : SegType) (segs : List Nat) (mfv : Nat) (omt : Bool)
+    (m : Mask) : Except ErrKind SegObj :=
+  if m.numPlanes ≠ 1 then .error .value
+  else if m.planeSizes.any (· != R * C) then .error .value
+  else match checkArgs codec t segs mfv with
+    | .error e => .error e
+    | .ok bits =>
+      match castMask segs t m with
+      | .error e => .error e
+      | .ok r =>
+        match storedFrames (tileMask R C tr tc r.1) segs t mfv omt (List.range (tileMask R C tr tc r.1).numPlanes) with
+        | .error e => .error e
+        | .ok frames =>
+          match encodePixelData codec tr tc bits (frames.map (·.px)) with
+          | .error e => .error e
+          | .ok pd => .ok { rows := tr, cols := tc, bits, t, mfv, segs, keys := frames.map (fun f => (f.seg, f.plane)), pd }
+
 end HdVerif.SegEncode
